@@ -28,7 +28,7 @@ META = {
         'pero_ocr/core/crop_engine.py:EngineLineCropper.reverse_line_mapping',
     ],
     'bounds': {
-        'quick': 'fast_remap: 1..2 sample points with symbolic real coordinates in [-50, 4050]^2, page of symbolic size <= 4000 x 4000, any pixel function; fallback: four kinds of failure',
+        'quick': 'fast_remap: 1..2 sample points with symbolic real coordinates in [-50, 4050]^2, page of symbolic size <= 4000 x 4000, any pixel function; fallback: five kinds of failure (ValueError, IndexError, ZeroDivisionError, TypeError, OverflowError)',
         'thorough': 'fast_remap: 3 sample points',
     },
     'assumptions': [
@@ -179,10 +179,12 @@ def _run_fallback(task, patches):
     H = Harness(patches, extra_builtins={'print': lambda *a, **k: None})
     ce = H.load('pero_ocr.core.crop_engine')
     K = 'C10:fallback:'
-    kinds = [ValueError('x_new is above the interpolation range'), IndexError('index -1 is out of bounds'), ZeroDivisionError('division by zero'), TypeError('bad')]
+    kinds = [ValueError('x_new is above the interpolation range'), IndexError('index -1 is out of bounds'), ZeroDivisionError('division by zero'), TypeError('bad'),
+             OverflowError('cannot convert float infinity to integer')]
+    state = {}
 
     def body():
-        k = core.choose(len(kinds))
+        k = state['k'] = core.choose(len(kinds))
         cropper = ce.EngineLineCropper(line_height=24, poly=0, scale=1)
 
         def boom(baseline, heights, target_height):
@@ -195,7 +197,7 @@ def _run_fallback(task, patches):
 
     for p, res, exc in H.explore(body):
         if exc is not None:
-            H.fail(K + 'error-escapes', 'a failing line crop raised %r instead of falling back to a blank crop' % (exc,), lambda m_: {'mode': 'fallback'})
+            H.fail(K + 'error-escapes', 'a failing line crop raised %r instead of falling back to a blank crop' % (exc,), lambda m_: {'mode': 'fallback', 'kind': state.get('k', 0)})
             continue
         k, crop = res
         if tuple(crop.shape)[0] != 24 or tuple(crop.shape)[2] != 3 or any(v != 0 for v in crop.d):
